@@ -16,7 +16,7 @@ fn ascii_word(c: char) -> bool { c.is_ascii_alphanumeric() || c == '_' || c == '
 
 /// definite knowledge about the rule, independent of the regex engine:
 /// Some(true) must accept, Some(false) must reject, None = depends on the Unicode class of a non-ASCII char
-fn oracle(s: &str) -> Option<bool> {
+pub fn oracle(s: &str) -> Option<bool> {
     let parts: Vec<&str> = s.split('/').collect();
     if parts.len() != 3 || !parts[0].is_empty() { return Some(false); }
     let (ns, tp) = (parts[1], parts[2]);
